@@ -54,6 +54,9 @@ type ersOutJ struct {
 	Foreign      []string         `json:"foreign"`
 	// AppliedPods: pod creations / deletions of this sync that the API server applied
 	AppliedPods int `json:"appliedPods"`
+	// what the stored replica set says after the sync
+	StoredReconcileError string `json:"storedReconcileError"`
+	StoredCleanupDone    string `json:"storedCleanupDone"`
 }
 
 func normErsStatusTimes(st *canon.ERSStatus, lo, hi, now int64) {
@@ -363,20 +366,58 @@ func streamErsReconcile(r *rand.Rand, i int, tier string) *Case {
 	var failAt map[int]string
 	if r.Intn(5) == 0 {
 		failAt = map[int]string{r.Intn(4): pick(r, "reject", "reject", "lost")}
+		if r.Intn(2) == 0 {
+			// and another writer touched the replica set meanwhile: its status write gets a 409
+			failAt[-2] = "conflict"
+		}
 	}
 	cl := loggingClient(objs, wl, failAt)
 	aff := r.Intn(2) == 0
-	rec, _ := ersctl.NewReconciler(ersctl.ReconcilerOptions{IsNodeAffinitySupported: aff}, cl, theScheme, logr.Discard(), record.NewFakeRecorder(1000))
+	sw := &switchClient{Client: cl}
+	rec, _ := ersctl.NewReconciler(ersctl.ReconcilerOptions{IsNodeAffinitySupported: aff}, sw, theScheme, logr.Discard(), record.NewFakeRecorder(1000))
+	warm := failAt == nil && r.Intn(4) == 0
+	if warm {
+		// the same reconciler instance has already synced this replica set in a world with other node
+		// labels / taints / settings selectors (its writes went to that other world); what it keeps
+		// legitimately — the failed-pod back-off — is read back below and given to the model
+		sw.use(loggingClient(perturbNodes(r, objs), &writeLog{}, nil))
+		Recovered(func() {
+			_, _ = rec.Reconcile(context.TODO(), reconcile.Request{NamespacedName: types.NamespacedName{Namespace: testNS, Name: target.Name}})
+		})
+		sw.use(cl)
+	}
 	in := ersInput(cl, testNS, testEDS, target.Name, aff, rec)
+	statusConflict := failAt != nil && failAt[-2] != ""
 	out, nowC := runErsReconcile(rec, cl, wl, testNS, testEDS, target.Name)
 	in["now"] = nowC
+	{
+		after := &edsv1.ExtendedDaemonSetReplicaSet{}
+		_ = cl.Get(context.TODO(), types.NamespacedName{Namespace: testNS, Name: target.Name}, after)
+		for _, c := range after.Status.Conditions {
+			switch c.Type {
+			case edsv1.ConditionTypeReconcileError:
+				out.StoredReconcileError = string(c.Status)
+			case edsv1.ConditionTypePodsCleanupDone:
+				out.StoredCleanupDone = string(c.Status)
+			}
+		}
+	}
 	cat := w.cat
+	if warm {
+		cat = append(cat, "warm-reconciler")
+	}
 	if failAt != nil {
 		in["faulted"] = true
 		for k, f := range failAt {
-			if k < len(out.Order) {
+			if k >= 0 && k < len(out.Order) {
 				cat = append(cat, "fault:"+f+":"+strings.SplitN(out.Order[k], ":", 2)[0])
+				if strings.HasPrefix(out.Order[k], "create:Pod") || strings.HasPrefix(out.Order[k], "delete:Pod") {
+					in["podWriteFailed"] = true
+				}
 			}
+		}
+		if statusConflict {
+			cat = append(cat, "fault:conflict:status")
 		}
 	}
 	cat = append(cat, "kind:"+out.Kind, "target:"+target.Name)
